@@ -569,6 +569,81 @@ example : ∃ toks t', Lex.lex Lex.CharClass.ascii Gen.lexTables "a?.b+not\tc\n"
   rw [this] at h1
   exact h1
 
+/-! #### `whitespace_invariance_go` on a text with a number, a string, a no-break space and an ideographic space -/
+
+def goTree : Node := .binary {} "+" (.int {} 42) (.str {} "s")
+
+/-- `42<U+00A0>+<U+3000>"\U00000073"<U+2028>` lexes (Go's rune classes, generated tables) and parses to `42 + "s"`
+    up to locations — whatever strconv.ParseFloat/FormatFloat (`pf`, `sf`) are, as long as they satisfy the two
+    float hypotheses of `lexnum_setting`. -/
+theorem whitespace_invariance_go_instance (pf : String → Option UInt64) (sf : UInt64 → String)
+    (hpf : ∀ text b, pf text = some b → floatLit b = true)
+    (hfloat : ∀ b, floatLit b = true → guardedNum Gen.numCfg pf (sf b) = some (.float b)) :
+    ∃ toks t', Lex.lex Gen.goCharClass Gen.lexTables "42\u00a0+\u3000\"\\U00000073\"\u2028" = .ok toks ∧
+      parse { tb := Gen.parserTables, num := guardedNum Gen.numCfg pf, badRegex := fun _ => false } toks = .ok t' ∧
+      t'.eraseLoc = goTree.eraseLoc := by
+  have htoks : pr { tb := Gen.parserTables, num := guardedNum Gen.numCfg pf, badRegex := fun _ => false }
+      { showInt := fun n => C12.decimalSpelling n [], showFloat := sf } (fun _ => 0) [] 0 (eofAt {}) goTree =
+      [tok .number "42", tok .operator "+", tok .string "s"] := by
+    have h42 : C12.decimalSpelling 42 [] = "42" := by decide +kernel
+    simp [pr, parenthesize, needParens, body, goTree, Gen.parserTables, Gen.binaryOperators, lprec, rprec, h42, tok,
+      List.lookup]
+  have h := whitespace_invariance_go pf sf (fun _ => false) hpf hfloat goTree (fun _ => 0)
+    [[], ['\u00a0'], ['\u3000']] ['\u2028'] (by simp [canon, goTree, inv, Gen.parserTables, Gen.binaryOperators])
+    (by rw [htoks]; rfl)
+    (by
+      rw [htoks]
+      intro x hx
+      simp only [List.mem_cons, List.mem_nil_iff, or_false] at hx
+      rcases hx with rfl | rfl | rfl
+      · refine ⟨⟨'4', ['2'], none, none⟩, ⟨(by decide), (by decide), (by intro fs h; cases h),
+          (by intro e sg xs h; cases h)⟩, (by intro e sg xs h; cases h), (by decide)⟩
+      · show "+" ∈ opValues; decide
+      · trivial)
+    (by
+      rw [htoks]
+      have sp : ∀ l : List Char, l.all Gen.goCharClass.isSpace = true → ∀ c ∈ l, Gen.goCharClass.isSpace c = true :=
+        fun l h c hc => List.all_eq_true.mp h c hc
+      refine ⟨sp _ (by decide +kernel), ?_, sp _ (by decide +kernel), ?_, sp _ (by decide +kernel), ?_,
+        sp _ (by decide +kernel)⟩
+      · exact ⟨fun h => absurd h.1 (by decide), fun h => absurd h.1 (by decide), fun _ _ hg => absurd hg (by decide)⟩
+      · exact ⟨fun h => absurd h.2 (by decide), fun h => absurd h.2 (by decide), fun _ _ hg => absurd hg (by decide)⟩
+      · intro h; exact absurd h.1 (by decide))
+  obtain ⟨toks, t', h1, _, h3, h4⟩ := h
+  refine ⟨toks, t', ?_, h3, h4⟩
+  rw [htoks] at h1
+  have htext : String.ofList (Lex.renderItems (layoutItems [tok .number "42", tok .operator "+", tok .string "s"]
+      [[], ['\u00a0'], ['\u3000']]) ['\u2028']) = "42\u00a0+\u3000\"\\U00000073\"\u2028" := by decide +kernel
+  rw [htext] at h1
+  exact h1
+
+/-! #### the `not in` deviation (known finding `c11:whitespace:not-in`) on the model -/
+
+/-- the kinds and values the lexer model produces, and whether the parser model accepts them -/
+def lexParse (src : String) : Option (List (TokKind × String) × Bool) :=
+  match Lex.lex Lex.CharClass.ascii Gen.lexTables src with
+  | .ok toks => some (toks.map (fun t => (t.kind, t.value)),
+      match parse demoCfg toks with | .ok _ => true | .error _ => false)
+  | .error _ => none
+
+/-- **Witness**: white space other than U+0020 inside or after `not in` changes the outcome.  `a not in b` is one
+    operator token `not in` and parses; with a TAB or a line feed between the words the lexer yields the two
+    operators `not`, `in` and the parser rejects; with a line feed (or `[`) right after `in` likewise.  This is the
+    behaviour of lexer.acceptWord, mirrored by the model; it is why `tokOk`/`PairOK` carry the `not in`
+    conditions, which are a listed deviation of the code and not part of the property. -/
+theorem not_in_whitespace_witness :
+    lexParse "a not in b" = some ([(.identifier, "a"), (.operator, "not in"), (.identifier, "b"), (.eof, "")], true) ∧
+    lexParse "a not\tin b" =
+      some ([(.identifier, "a"), (.operator, "not"), (.operator, "in"), (.identifier, "b"), (.eof, "")], false) ∧
+    lexParse "a not\nin b" =
+      some ([(.identifier, "a"), (.operator, "not"), (.operator, "in"), (.identifier, "b"), (.eof, "")], false) ∧
+    lexParse "a not in\nb" =
+      some ([(.identifier, "a"), (.operator, "not"), (.operator, "in"), (.identifier, "b"), (.eof, "")], false) ∧
+    lexParse "a not in[b]" =
+      some ([(.identifier, "a"), (.operator, "not"), (.operator, "in"), (.bracket, "["), (.identifier, "b"),
+        (.bracket, "]"), (.eof, "")], false) := by
+  refine ⟨?_, ?_, ?_, ?_, ?_⟩ <;> decide +kernel
+
 def identNs : Outcome → Option Bool
   | .ok (.ident _ _ ns) => some ns
   | _ => none
